@@ -27,16 +27,29 @@ LEVEL_TEXT = ("Lean theorems over all event histories of one object in one proce
               "bodies, lost patches, purged records), via the in-memory `resumed_handlers` of /repo 6c4463d (the repaired finding "
               "F9 and the stale-view re-run are regression theorems). First clause: eligible_selected (any lifecycle) and "
               "eligible_invoked (first attempt, all-at-once, unchanged object); completion over several passes is C03's subject. "
+              "Third clause at the start-up: marked_listed_selected_iff_optin (an object found already marked and held: deletion cause, "
+              "a resuming handler selected iff it opted in and matches). NEGATIVE: admitted_first_never_resumed / admitted_first_witness — "
+              "the memory has a second creator (an admission request, `admission`), and if one is served before the listing event is "
+              "processed the object is never resumed in this process (open finding F10, replayed on the real code). "
               "Model tied to the code per cycle (memory incl. resumed_handlers, cause, selection, invocations, records).")
 THEOREMS = [("Kopf.Props.C14", "Kopf.C14." + n) for n in [
     "resume_invoked_only_initial", "not_for_new", "after_fully_handled_never",
     "resumed_not_selected", "completed_never_again", "completed_never_again_run",
-    "eligible_selected", "eligible_invoked", "suppressed_keeps_initial", "flipflop_regression", "stale_view_regression"]]
+    "eligible_selected", "eligible_invoked", "suppressed_keeps_initial", "flipflop_regression", "stale_view_regression",
+    "marked_listed_selected_iff_optin", "free_step_nothing", "admitted_first_never_resumed", "admitted_first_witness"]]
 RULE = ("seeded scenarios: objects handled by a first incarnation, then stop/kill + restart; 1-3 resume handlers (label filters, "
         "deleted opt-in, failures/retries) next to create/update/delete handlers; re-listings (history compaction + 410), "
         "stream reconnects, edits and label flip-flops before/during/after the resume cycle, deletions; one case = one processing "
-        "cycle; distinct & non-trivial = distinct (memory flags, reason, selected kinds, outcome shape) with a resume handler selected or gated out")
-TRUSTED = c02.TRUSTED
+        "cycle; distinct & non-trivial = distinct (memory flags, reason, selected kinds, outcome shape) with a resume handler selected or gated out; "
+        "plus (white-box round): what happens while the operator is DOWN (deletion: objects found marked and held by the own / a foreign "
+        "finalizer, own finalizer stripped, label flips, edits), registries in which EVERY handler is label-filtered (prematch fails in the "
+        "middle of an open resuming cycle), the other ways a handler ends for good (retries= exhausted, errors=permanent/ignored, "
+        "sub-handlers through kopf.execute) followed by a record loss (label flip-flop, stale view), admission requests through the "
+        "operator's real serve_admission_request before/after the listing")
+TRUSTED = c02.TRUSTED + ["harness/props/sim_c14.py (fake webhook server that only keeps the webhookfn kopf binds; timeline op `admit`)",
+                         "the oracle's reading of 'exists when the operator starts' = stored in the fake cluster before the incarnation's "
+                         "start mark (cluster history), and of 'ran to completion' = returned / PermanentError / an error the declared "
+                         "errors= mode takes for final / the last attempt allowed by retries= (from the scripted handler's own log)"]
 ASSUMPTIONS = ["filters (`registries.match`) enter the model as the observed per-handler match result (C15's subject)",
                "`eligible_invoked` (first attempt in the first non-suppressed cycle; unchanged objects and objects edited while the "
                "operator was down alike) is proved for the all-at-once lifecycle; `suppressed_keeps_initial` carries it over a "
@@ -45,6 +58,9 @@ ASSUMPTIONS = ["filters (`registries.match`) enter the model as the observed per
                "covers all lifecycles on the generated histories; eventual completion is C03's subject",
                "handler ids are unique among the resuming handlers (`hres`: every registration under the id is a resuming one); "
                "a function stacked as @on.resume + @on.update under ONE id is outside the theorems (not generated either)",
+               "the memory of an object is created by its first processed event (`recall`) — except when an admission request came "
+               "first (`admission`, finding F10): the positive theorems start from `none`",
+               "timeout= on resuming handlers is not generated (the oracle's `final_call` does not judge time-outs)",
                "one operator process = one memory: a restart is a fresh `run … none`; nothing is claimed across processes "
                "(the property allows one run per process)"]
 
@@ -164,6 +180,168 @@ def gen_stale_view(rng: Any, i: int) -> dict:
     return sc
 
 
+def gen_down_ops(rng: Any, i: int) -> dict:
+    """What happens to the objects WHILE THE OPERATOR IS DOWN: a deletion (the object is found already marked, held by
+    the operator's own finalizer and/or a foreign one), the own finalizer stripped (the first cycle only puts it back),
+    label flips, spec edits; resume handlers with and without the deleted opt-in."""
+    handlers: list[dict] = []
+    for k in range(rng.choice([1, 2, 2])):
+        opts: dict[str, Any] = {}
+        if rng.random() < 0.5:
+            opts["deleted"] = True
+        if rng.random() < 0.25:
+            opts["labels"] = {"l": "1"}
+        script = [["temp", rng.choice([1.0, 3.0])]] if rng.random() < 0.3 else []
+        handlers.append({"kind": "resume", "id": f"r{k}", "opts": opts, "script": script, "default": "ok"})
+    if rng.random() < 0.75:
+        handlers.append({"kind": "delete", "id": "d0", "opts": {"optional": False},
+                         "script": [rng.choice(["ok", "ok", ["temp", 2.0]])]})
+    if rng.random() < 0.5:
+        handlers.append({"kind": "update", "id": "u0", "script": ["ok"]})
+    if rng.random() < 0.5:
+        handlers.append({"kind": "create", "id": "c0", "script": ["ok"]})
+    rng.shuffle(handlers)
+    nobj = rng.choice([1, 2])
+    tl: list[list] = []
+    for o in range(nobj):
+        tl.append([1.0 + o, "create", f"o{o}", {"spec": {"x": 0}, "metadata": {"labels": {"l": rng.choice(["0", "1", "1", "1"])}}}])
+        if rng.random() < 0.25:
+            tl.append([4.0 + o, "fins", f"o{o}", ["foreign/holder"]])
+    tl.append([8.0, rng.choice(["stop", "kill"])])
+    for o in range(nobj):
+        op = rng.choice(["delete", "delete", "strip", "flip", "edit", "strip+delete", "addfin", "none"])
+        if op == "addfin":   # the operator's finalizer on an object that (perhaps) needs none: the first cycle only removes it
+            tl.append([8.25, "edit", f"o{o}", {"metadata": {"finalizers": ["kopf.zalando.org/KopfFinalizerMarker"]}}])
+        if "strip" in op:
+            tl.append([8.25, "strip_own_finalizer", f"o{o}"])
+        if "delete" in op:
+            tl.append([8.5, "delete", f"o{o}"])
+        if op == "flip":
+            tl.append([8.5, "edit", f"o{o}", {"metadata": {"labels": {"l": rng.choice(["0", "1"])}}}])
+        if op == "edit":
+            tl.append([8.5, "edit", f"o{o}", {"spec": {"x": 7}}])
+    if rng.random() < 0.3:   # created while the operator is down: exists at the start, never handled before
+        tl.append([8.5, "create", "n0", {"spec": {"x": 0}, "metadata": {"labels": {"l": "1"}}}])
+    t = 9.0
+    tl.append([t, "start"])
+    for _ in range(rng.choice([0, 0, 1, 2])):
+        t += rng.choice([0.015625, 0.25, 1.0, 2.0])
+        op = rng.choice(["relist", "reconnect", "edit_spec", "delete"])
+        name = f"o{rng.randrange(nobj)}"
+        if op == "relist":
+            tl += [[t, "compact"], [t, "break", "410"]]
+        elif op == "reconnect":
+            tl.append([t, "break", rng.choice(["eof", "conn"])])
+        elif op == "edit_spec":
+            tl.append([t, "edit", name, {"spec": {"x": rng.randrange(1, 5)}}])
+        else:
+            tl.append([t, "delete", name])
+    return {"seed": i, "lifecycle": rng.choice(["asap", "one_by_one", "all_at_once"]), "handlers": handlers,
+            "timeline": tl, "settings": {"execution.default_backoff": 1.0, "watching.reconnect_backoff": 0.125},
+            "end": t + 25.0}
+
+
+def _handled_object(name: str = "a", label: str = "1") -> dict:
+    essence = {"spec": {"x": 1}, "metadata": {"labels": {"l": label}}}
+    return {"name": name, "body": {"spec": {"x": 1}, "metadata": {"labels": {"l": label}, "annotations": {
+        "kopf.zalando.org/last-handled-configuration": json.dumps(essence, separators=(",", ":")) + "\n"}}}}
+
+
+def gen_allfiltered(rng: Any, i: int) -> dict:
+    """EVERY handler is label-filtered: when the label flips away in the middle of an open resuming cycle, nothing
+    matches the object any more (`prematch` fails: the blind branch of `process_resource_causes` purges the records and
+    drops the cause); then it flips back."""
+    lab = {"labels": {"l": "1"}}
+    handlers: list[dict] = [{"kind": "resume", "id": "r0", "opts": dict(lab), "script": [rng.choice(["ok", "ok", "perm"])]}]
+    for k in range(1, rng.choice([2, 2, 3])):
+        handlers.append({"kind": "resume", "id": f"r{k}", "opts": dict(lab),
+                         "script": [["temp", rng.choice([3.0, 6.0])]] * rng.choice([1, 2]), "default": "ok"})
+    if rng.random() < 0.4:
+        handlers.append({"kind": "update", "id": "u0", "opts": dict(lab), "script": ["ok"]})
+    rng.shuffle(handlers)
+    t = rng.choice([0.5, 1.0, 2.0])
+    away: dict[str, Any] = {"metadata": {"labels": {"l": "0"}}}
+    back: dict[str, Any] = {"metadata": {"labels": {"l": "1"}}}
+    if rng.random() < 0.4:
+        away["spec"] = {"x": 2}
+        if rng.random() < 0.5:
+            back["spec"] = {"x": 1}
+    tl: list[list] = [[t, "edit", "a", away]]
+    if rng.random() < 0.3:
+        tl += [[t + 0.25, "compact"], [t + 0.25, "break", "410"]]
+    t += rng.choice([0.5, 1.0, 2.0])
+    tl.append([t, "edit", "a", back])
+    return {"seed": i, "lifecycle": rng.choice(["all_at_once", "all_at_once", "asap", "one_by_one"]), "handlers": handlers,
+            "objects": [_handled_object()], "timeline": tl,
+            "settings": {"execution.default_backoff": 1.0, "watching.reconnect_backoff": 0.125}, "end": t + 30.0}
+
+
+SHAPES = ["plain", "retries-temp", "retries-arb", "errors-permanent", "errors-ignored", "subs", "subs-pending"]
+
+
+def gen_shapes(rng: Any, i: int) -> dict:
+    """The other ways a resume handler ends for good — the framework gives up on it (retries=), an arbitrary error taken
+    for final (errors=permanent / ignored), sub-handlers run through `kopf.execute` — followed by the loss of its record
+    while a sibling keeps the cycle open: the label flip-flop of finding F9, or a stale view after the consistency timeout."""
+    shape = rng.choice(SHAPES)
+    stale = rng.random() < 0.35 and not shape.startswith("subs")
+    opts: dict[str, Any] = {} if stale else {"labels": {"l": "1"}}
+    r1: dict[str, Any] = {"kind": "resume", "id": "r1", "opts": opts, "script": [], "default": "ok"}
+    n = 1
+    if shape in ("retries-temp", "retries-arb"):
+        n = rng.choice([1, 1, 2])
+        opts["retries"] = n
+        opts["backoff"] = 0.5
+        r1["script"] = [["temp", 0.5] if shape == "retries-temp" else "arb"] * n + ["ok"] * 3
+        r1["default"] = "perm"
+    elif shape.startswith("errors-"):
+        opts["errors"] = shape.split("-")[1]
+        r1["script"] = ["arb"]
+    elif shape.startswith("subs"):
+        r1["sub"] = [{"id": "s1"}, {"id": "s2", "script": [["temp", 12.0]] if shape == "subs-pending" else []}]
+    if stale:      # the foreign edit must land while the (last) attempt is running
+        last = r1["script"][n - 1] if r1["script"] else "ok"
+        if r1["script"]:
+            r1["script"][n - 1] = ["sleep", 1.5, last]
+        else:
+            r1["script"] = [["sleep", 1.5, "ok"]]
+    handlers = [r1, {"kind": "resume", "id": "r2", "script": [["temp", rng.choice([8, 12])]] * 2, "default": "ok"}]
+    if rng.random() < 0.4:
+        handlers.append({"kind": "update", "id": "u0", "script": ["ok"]})
+    rng.shuffle(handlers)
+    sc: dict[str, Any] = {"seed": i, "lifecycle": "all_at_once", "handlers": handlers, "objects": [_handled_object()],
+                          "settings": {"execution.default_backoff": 1.0}, "end": 45, "shape": shape}
+    if stale:
+        t = 0.5 * (n - 1) + rng.choice([0.25, 0.5, 1.0])
+        edit = rng.choice([{"metadata": {"annotations": {"foo": "bar"}}}, {"spec": {"x": 2}}])
+        sc["timeline"] = [[t, "edit", "a", edit]]
+        sc["echo_delay"] = {"default": 0, "rules": [[2 + n, None, rng.choice([5.5, 6.0, 9.0])]]}
+    else:
+        t = 0.5 * n + rng.choice([1.0, 2.0])
+        away: dict[str, Any] = {"metadata": {"labels": {"l": "0"}}}
+        if rng.random() < 0.5:
+            away["spec"] = {"x": 2}
+        sc["timeline"] = [[t, "edit", "a", away], [t + rng.choice([0.5, 1.0, 2.0]), "edit", "a", {"metadata": {"labels": {"l": "1"}}}]]
+    return sc
+
+
+def gen_admission(rng: Any, i: int) -> dict:
+    """The other creator of an object's memory: an admission request (UPDATE / DELETE of an existing object) served
+    through the operator's real `serve_admission_request` — right when the webhook server comes up (before the listing
+    is processed), or later."""
+    handlers = [{"kind": "resume", "id": "r1", "script": [rng.choice(["ok", "ok", ["temp", 1.0]])], "default": "ok"},
+                {"kind": rng.choice(["validate", "mutate"]), "id": "v1"}]
+    if rng.random() < 0.5:
+        handlers.append({"kind": "update", "id": "u0", "script": ["ok"]})
+    when = rng.choice([0, 0, 0.5, 2.0])
+    tl: list[list] = [[when, "admit", "a", rng.choice(["UPDATE", "UPDATE", "DELETE"])]]
+    if rng.random() < 0.4:
+        tl.append([when + rng.choice([1.0, 3.0]), "edit", "a", {"spec": {"x": 5}}])
+    return {"seed": i, "runner": "harness.props.sim_c14:run_scenario", "webhook": True,
+            "lifecycle": rng.choice(["asap", "all_at_once"]), "handlers": handlers, "objects": [_handled_object()],
+            "timeline": tl, "end": 25}
+
+
 def _decls(sc: dict) -> list[dict]:
     out = []
     for h in sc["handlers"]:
@@ -177,22 +355,67 @@ def _decls(sc: dict) -> list[dict]:
     return out
 
 
+OWN = "kopf.zalando.org/"
+OWN_FINALIZER = OWN + "KopfFinalizerMarker"
+F10_SIG = {"site": "admission.serve_admission_request", "shape": "memory created by an admission request before the listing: the object is never resumed"}
+
+
+def final_call(h: dict, c: dict) -> bool:
+    """Is this invocation of the resume handler `h` the one that ends it for good — judged from the declaration
+    (errors=, retries=) and from what the scripted function did, not from kopf's records: it returned (with
+    sub-handlers run through `kopf.execute`: returned only once they are all finished), failed permanently, failed
+    with an error that the declared mode takes for final, or failed on its last allowed attempt."""
+    out = c.get("outcome")
+    opts = h.get("opts") or {}
+    retries = opts.get("retries")
+    last = retries is not None and int(c.get("retry") or 0) + 1 >= int(retries)
+    if out in ("ok", "perm"):
+        return True
+    if out == "arb":
+        return str(opts.get("errors") or "temporary").lower() in ("ignored", "permanent") or last
+    if out == "temp":
+        return last
+    return False     # "subhandlers" (children pending), None (cancelled / still running)
+
+
+def _versions(tr: dict) -> dict[str, list[dict]]:
+    """Every stored version of every kopfexamples object, per uid, in time order (the cluster's own record)."""
+    out: dict[str, list[dict]] = {}
+    for key, vs in tr.get("history", {}).items():
+        if not key.startswith("kopfexamples/"):
+            continue
+        for v in vs:
+            uid = (v["body"].get("metadata") or {}).get("uid")
+            if uid:
+                out.setdefault(uid, []).append(v)
+    return out
+
+
 def oracle(ctx: Ctx, sc: dict, tr: dict) -> None:
     resume_ids = {h["id"]: h for h in sc["handlers"] if h["kind"] == "resume"}
-    # completions per (incarnation, uid, resume handler)
-    done: dict[tuple, list[dict]] = {}
+    # THIRD CLAUSE: never on an object being deleted without opt-in
+    per_key: dict[tuple, list[dict]] = {}
     for c in tr["calls"]:
-        if c["id"] in resume_ids and c.get("outcome") in ("ok", "perm"):
-            done.setdefault((c["inc"], c["uid"], c["id"]), []).append(c)
-        if c["id"] in resume_ids and c.get("marked") and not resume_ids[c["id"]].get("opts", {}).get("deleted"):
+        if c["id"] not in resume_ids:
+            continue
+        per_key.setdefault((c["inc"], c["uid"], c["id"]), []).append(c)
+        if c.get("reason") == "create":
+            # "Creation never mixes with resuming, even if an object is detected on startup": an object that was never
+            # handled before gets its creation handlers only (the handler's own `reason` kwarg says what it is run for)
+            ctx.oracle_fail(f"resume handler {c['id']} invoked for the creation of an object (never handled before)",
+                            {"scenario": sc, "call": c}, {"site": "detect_changing_cause", "shape": "resume mixed into a creation"})
+        if c.get("marked") and not resume_ids[c["id"]].get("opts", {}).get("deleted"):
             ctx.oracle_fail(f"resume handler {c['id']} invoked on an object being deleted without opting in",
                             {"scenario": sc, "call": c}, {"site": "ChangingRegistry.iter_handlers", "shape": "resume on deleted without opt-in"})
-    for key, calls in done.items():
-        if len(calls) <= 1:
-            continue
+    # SECOND CLAUSE: once a resume handler has run to completion (see `final_call`) for an object in an operator
+    # process, it is not invoked again for that object in that process — whatever the later invocation ends with.
+    for key, calls in per_key.items():
         inc, uid, hid = key
-        t0, t1 = calls[0]["t"], calls[1]["t"]
-        # classify: was the finished record dropped in an open cycle in between (the known F9 shape)?
+        k0 = next((k for k, c in enumerate(calls) if final_call(resume_ids[hid], c)), None)
+        if k0 is None or k0 == len(calls) - 1:
+            continue
+        t0, t1 = calls[k0]["t"], calls[k0 + 1]["t"]
+        # classify: was the finished record dropped in an open cycle in between (the F9 shape)?
         dropped = False
         dropped_while_selected = False
         for cyc in tr["cycles"]:
@@ -210,53 +433,89 @@ def oracle(ctx: Ctx, sc: dict, tr: dict) -> None:
                {"site": "process_changing_cause", "shape": "finished record of a still-selected resume handler lost in an open cycle"}
                if dropped_while_selected else
                {"site": "process_changing_cause", "shape": "resume handler completed twice in one process"})
-        ctx.oracle_fail(f"resume handler {hid} ran to completion {len(calls)} times for object {uid} in incarnation {inc}",
-                        {"scenario": sc, "calls": calls[:3]}, sig)
-    # FIRST CLAUSE (positive): an object that exists when the operator starts (first seen in the listing), was
-    # handled before (last-handled state stored), carries no progress records, is not being deleted and matches the
-    # handler — and stays so for as long as this incarnation lives, which is long enough (≥ 10 s) — gets each such
-    # resume handler invoked at least once in this incarnation.
-    OWN = "kopf.zalando.org/"
-    inc_start = {m["inc"]: m["t"] for m in tr["marks"] if m["what"] == "start"}
+        ctx.oracle_fail(f"resume handler {hid} ran to completion (call {k0}: {calls[k0].get('outcome')}, retry {calls[k0].get('retry')}) and was "
+                        f"invoked {len(calls) - 1 - k0} more time(s) for object {uid} in incarnation {inc}",
+                        {"scenario": sc, "calls": calls[:k0 + 3]}, sig)
+    # FIRST CLAUSE (positive). WHICH objects "exist when the operator starts" is read from the cluster's own history and
+    # the start of the incarnation — not from what the operator made of them (the type of the first event it processed):
+    # an object stored before the incarnation started, handled before (last-handled state stored), without progress
+    # records, which matches the handler and stays so for as long as this incarnation lives — long enough (>= 10 s) —
+    # gets each such resume handler invoked at least once in this incarnation, if it is (A) not being deleted during the
+    # incarnation, or (B) already being deleted at the start, still held by the operator's own finalizer, and the handler
+    # opted in (deleted=True).
     inc_end = {m["inc"]: m["t"] for m in tr["marks"] if m["what"] in ("stopped", "killed")}
     t_end = max([m["t"] for m in tr["marks"] if m["what"] == "end"] or [0])
     called = {(c["inc"], c["uid"], c["id"]) for c in tr["calls"] if c["id"] in resume_ids}
-    by_obj: dict[tuple, list[dict]] = {}
+    versions = _versions(tr)
+    first_cycle: dict[tuple, dict] = {}
     for cyc in tr["cycles"]:
-        by_obj.setdefault((cyc["inc"], cyc["uid"]), []).append(cyc)
-    for (inc, uid), cycs in by_obj.items():
-        first = cycs[0]
-        if first["event_type"] is not None or inc not in inc_start:
+        first_cycle.setdefault((cyc["inc"], cyc["uid"]), cyc)
+    for incr in tr.get("incarnations", []):
+        inc, t_start = incr["inc"], incr["t"]
+        t_stop = inc_end.get(inc, t_end)
+        if t_stop - t_start < 10.0 or sc.get("faults") or sc.get("echo_delay"):
             continue
-        if inc_end.get(inc, t_end) - first["t0"] < 10.0 or sc.get("faults") or sc.get("echo_delay"):
-            continue
-        for hid, h in resume_ids.items():
-            want_labels = (h.get("opts") or {}).get("labels") or {}
-            def eligible(body: dict) -> bool:
-                meta = body.get("metadata") or {}
-                ann = meta.get("annotations") or {}
-                return (not meta.get("deletionTimestamp") and OWN + "last-handled-configuration" in ann
-                        and all((meta.get("labels") or {}).get(k) == v for k, v in want_labels.items()))
-            ann0 = (first["body"].get("metadata") or {}).get("annotations") or {}
-            has_progress = any(k.startswith(OWN) and k[len(OWN):] not in ("last-handled-configuration", "touch-dummy", "kopf-managed")
-                               for k in ann0)
-            if has_progress or not all(eligible(c["body"]) for c in cycs) or any(c["event_type"] == "DELETED" for c in cycs):
+        for uid, vs in versions.items():
+            before = [v for v in vs if v["t"] <= t_start]
+            if not before or before[-1]["event"] == "DELETED":
                 continue
-            script = h.get("script") or []
-            if any((a[0] if isinstance(a, list) else a) == "sleep" for a in script):
+            at_start = before[-1]["body"]
+            window = [at_start] + [v["body"] for v in vs if t_start < v["t"] <= t_stop]
+            gone = any(v["event"] == "DELETED" for v in vs if t_start < v["t"] <= t_stop)
+            meta0 = at_start.get("metadata") or {}
+            ann0 = meta0.get("annotations") or {}
+            if OWN + "last-handled-configuration" not in ann0:
                 continue
-            ctx.count("first_clause", "eligible")
-            if (inc, uid, hid) not in called:
-                ctx.oracle_fail(f"resume handler {hid} was never invoked for object {uid}, which existed at the start of incarnation {inc}, "
-                                "was handled before, carries no progress, is not being deleted and matches",
-                                {"scenario": sc, "inc": inc, "uid": uid, "first_cycle": first["i"]},
-                                {"site": "process_resource_event", "shape": "eligible object never resumed"})
-    # resume handlers never for objects first seen via a watch event (created while running)
+            if any(k.startswith(OWN) and k[len(OWN):] not in ("last-handled-configuration", "touch-dummy", "kopf-managed") for k in ann0):
+                continue    # unfinished progress from an earlier process
+            marked0 = bool(meta0.get("deletionTimestamp"))
+            held0 = OWN_FINALIZER in (meta0.get("finalizers") or [])
+            for hid, h in resume_ids.items():
+                opts = h.get("opts") or {}
+                want_labels = opts.get("labels") or {}
+                def matches(body: dict) -> bool:
+                    meta = body.get("metadata") or {}
+                    return (OWN + "last-handled-configuration" in (meta.get("annotations") or {})
+                            and all((meta.get("labels") or {}).get(k) == v for k, v in want_labels.items()))
+                if not all(matches(b) for b in window):
+                    continue
+                if marked0:
+                    if not (held0 and opts.get("deleted")):
+                        continue
+                    klass = "being-deleted-opted-in"
+                else:
+                    if gone or any((b.get("metadata") or {}).get("deletionTimestamp") for b in window):
+                        continue
+                    klass = "eligible"
+                script = h.get("script") or []
+                if any((a[0] if isinstance(a, list) else a) == "sleep" for a in script):
+                    continue
+                ctx.count("first_clause", klass)
+                if (inc, uid, hid) not in called:
+                    fc = first_cycle.get((inc, uid))
+                    admitted = [m for m in tr["marks"] if m["what"] == "admit" and m.get("uid") == uid and m.get("inc") == inc
+                                and (fc is None or m["t"] <= fc["t0"])]
+                    sig = (F10_SIG if admitted else
+                           {"site": "process_resource_event", "shape": "eligible object never resumed"} if klass == "eligible" else
+                           {"site": "process_resource_event", "shape": "object being deleted never resumed by an opted-in handler"})
+                    ctx.oracle_fail(f"resume handler {hid} was never invoked for object {uid}, which existed at the start of incarnation {inc} "
+                                    f"(t={t_start}), was handled before, carries no progress and matches ({klass}); the first event processed "
+                                    f"for it: {None if fc is None else [fc['t0'], fc['event_type'], (fc.get('cause') or {}).get('reason')]}",
+                                    {"scenario": sc, "inc": inc, "uid": uid, "first_cycle": None if fc is None else fc["i"]}, sig)
+    # resume handlers never for objects that did not exist when the incarnation started (by the cluster's history) …
+    inc_start = {i["inc"]: i["t"] for i in tr.get("incarnations", [])}
+    created = {uid: vs[0]["t"] for uid, vs in versions.items()}
+    # … nor for objects the operator itself first saw through a watch event
     first_seen: dict[tuple, Any] = {}
     for cyc in tr["cycles"]:
         first_seen.setdefault((cyc["inc"], cyc["uid"]), cyc["event_type"])
     for c in tr["calls"]:
-        if c["id"] in resume_ids and first_seen.get((c["inc"], c["uid"]), None) is not None:
+        if c["id"] not in resume_ids:
+            continue
+        if c["uid"] in created and c["inc"] in inc_start and created[c["uid"]] > inc_start[c["inc"]]:
+            ctx.oracle_fail(f"resume handler {c['id']} invoked for an object created after the incarnation started",
+                            {"scenario": sc, "call": c}, {"site": "inventory.recall", "shape": "resume for a new object"})
+        elif first_seen.get((c["inc"], c["uid"]), None) is not None:
             ctx.oracle_fail(f"resume handler {c['id']} invoked for an object first seen through a watch event",
                             {"scenario": sc, "call": c}, {"site": "inventory.recall", "shape": "resume for a new object"})
 
@@ -264,9 +523,24 @@ def oracle(ctx: Ctx, sc: dict, tr: dict) -> None:
 def run(ctx: Ctx) -> None:
     n = ctx.budget(120, 3000)
     scenarios = [d.get("scenario", d) for _, d in load_corpus(ID)]
-    scenarios += [gen_scenario(ctx.rng, ctx.seed * 100000 + i) for i in range(n)]
-    scenarios += [gen_relist_midcycle(ctx.rng, 70_000_000 + ctx.seed * 100000 + i) for i in range(max(12, n // 4))]
-    scenarios += [gen_stale_view(ctx.rng, 80_000_000 + ctx.seed * 100000 + i) for i in range(max(8, n // 8))]
+    for sc in scenarios:
+        sc.setdefault("gen", "corpus")
+
+    def gen(fn: Any, base: int, count: int) -> None:
+        for i in range(count):
+            sc = fn(ctx.rng, base + ctx.seed * 100000 + i)
+            sc["gen"] = fn.__name__
+            scenarios.append(sc)
+
+    gen(gen_scenario, 0, n)
+    gen(gen_relist_midcycle, 70_000_000, max(12, n // 4))
+    gen(gen_stale_view, 80_000_000, max(8, n // 8))
+    gen(gen_down_ops, 81_000_000, max(40, n // 4))
+    gen(gen_allfiltered, 82_000_000, max(16, n // 8))
+    gen(gen_shapes, 83_000_000, max(42, n // 4))
+    gen(gen_admission, 84_000_000, max(6, n // 40))
+    for sc in scenarios:
+        ctx.count("generator", sc["gen"])
     results = pool.run_many(scenarios, wall=40.0)
     reqs, impls, where = [], [], []
     for sc, res in zip(scenarios, results):
@@ -339,9 +613,19 @@ def run(ctx: Ctx) -> None:
         ctx.compare("C14 processing cycle", impl, model, wh)
 
 
+ALL_GENS = [(gen_scenario, 8), (gen_relist_midcycle, 2), (gen_stale_view, 1), (gen_down_ops, 3), (gen_allfiltered, 2),
+            (gen_shapes, 3), (gen_admission, 1)]
+
+
 def search(ctx: Ctx, broken: list) -> None:
     n = ctx.budget(1000, 6000)
-    scenarios = [gen_scenario(ctx.rng, 9_000_000 + ctx.seed * 100000 + i) for i in range(n)]
+    scenarios = [d.get("scenario", d) for _, d in load_corpus(ID)]
+    total = sum(w for _, w in ALL_GENS)
+    for k, (fn, w) in enumerate(ALL_GENS):
+        for i in range(max(4, n * w // total)):
+            sc = fn(ctx.rng, 9_000_000 + k * 1_000_000 + ctx.seed * 100000 + i)
+            sc["gen"] = fn.__name__
+            scenarios.append(sc)
     for b in broken[:10]:
         sc = (b.replay or {}).get("input", {}).get("scenario") if isinstance(b.replay, dict) else None
         if sc:
